@@ -63,11 +63,14 @@ to the same at the new tip with the surviving pool; `playForMiner_refines`: the 
 a prefix of the pool); `doTx_refines`: one admission. `chain_refines` (`EnvOK`, `Inv`, `HOp`, `hrun`, `OpOK` / `HistOK`,
 `step_invariant`, `genesis_inv`, `chain_observables`): after ANY history of submissions, peers' blocks, own blocks and
 walks — refused operations and failing walks included — the node's observable tables are those of the replay of the chain
-genesis..tip on a fresh node followed by the pending pool in admission order. `undo_cancels_apply_history`: walking away
-and back restores the observables. `accepted_block_replayable`: a block that `play` accepts is accepted by a fresh
-replica (at every sufficiently high ledger height) — after the repair of `processUnconfirmTxs` (guard `staleMember`); of
-the code as found it was false (a pending member that only reads a key an earlier new transaction of the block overwrites
-was skipped by the node: the witness block is now refused).
+genesis..tip on a fresh node followed by the pending pool in admission order — and that chain CAN be replayed
+(`Inv.chain`). `undo_cancels_apply_history`: walking away and back restores the observables. `accepted_block_replayable`:
+a block that `play` accepts is accepted by a fresh replica (at every sufficiently high ledger height) — after the repair
+of `processUnconfirmTxs` (guard `staleMember`); of the code as found it was false (a pending member that only reads a key
+an earlier new transaction of the block overwrites was skipped by the node: the witness block is now refused). With it,
+`EnvOK` no longer assumes "every chain of the tree can be replayed": for peers' blocks accepted through `play` and for
+blocks applied by walks this is proved; only the node's own block (`playForMiner`) still carries the condition, in
+`OpOK`. Every walk of a history carries the skip list the ledger supplies for it (`HOp.walk … skip`, `Env.withSkip`).
 -/
 namespace XV.C01
 open XV.Chain XV.C02
@@ -3301,15 +3304,69 @@ example :
         ∀ pk ∈ (e.tx a).kin, (∀ ko ∈ (e.tx a).kout, ko.key ≠ pk.key) → ∀ ko ∈ (e.tx i).kout, ko.key ≠ pk.key) := by
   decide
 
+-- ------------------------------------------------------------------ `BlockValid` of a block the node itself applied
+
+/-- admission only sees the observables -/
+private theorem admitTx_trefines (x r : St) (h : TRefines x r) (lh : Int) (t : Tx) : admitTx x lh t = admitTx r lh t :=
+  admission_congrT x r lh t h.obs
+
+/-- a run of the block loop that succeeds from a state refining `r` succeeds from `r` -/
+private theorem applyBlockTxs_trefines (e : Env) (lh : Int) (prop : String) (l : List Nat) :
+    ∀ (x r : St), TRefines x r → ∀ x2, applyBlockTxs e lh prop [] l x = some (x2, .ok) →
+      ∃ r2, applyBlockTxs e lh prop [] l r = some (r2, .ok) := by
+  induction l with
+  | nil => intro x r _ x2 _; exact ⟨r, rfl⟩
+  | cons i rest ih =>
+    intro x r hxr x2 h
+    obtain ⟨hadm, hrest⟩ := applyBlockTxs_cons_ok e lh prop i rest x x2 h
+    obtain ⟨r2, hr2⟩ := ih _ _ (blockStep_trefines e prop i x r hxr) x2 hrest
+    refine ⟨r2, ?_⟩
+    unfold applyBlockTxs
+    simp only [List.contains_nil, Bool.false_eq_true, ↓reduceIte]
+    rw [← admitTx_trefines x r hxr, hadm]
+    exact hr2
+
+/-- transactions that cite the declared frozen heights cite, along a block, the frozen heights of the rows they spend -/
+private theorem frozenAlong_of_static (e : Env) (prop : String) (l : List Nat) :
+    ∀ s, FrozenInv e s → (∀ i ∈ l, StaticFrozen e i ∧ TxWF e i) → FrozenAlong e prop l s := by
+  induction l with
+  | nil => intro _ _ _; trivial
+  | cons i rest ih =>
+    intro s hf hst
+    refine ⟨?_, ih _ ?_ (fun j hj => hst j (List.mem_cons_of_mem _ hj))⟩
+    · intro q hq u hu
+      rw [hf q.tx q.off u hu, (hst i List.mem_cons_self).1 q hq]
+    · have hb : blockStep e prop i s = prun e (blockOps prop [i]) s := by rw [prun_blockOps]; rfl
+      rw [hb]
+      apply prun_FrozenInv e _ s _ hf
+      intro op hop
+      have := opId_blockOps prop [i] op hop
+      simp only [List.mem_cons, List.not_mem_nil, or_false] at this
+      rw [this]
+      exact (txWF_iff e i).mp (hst i List.mem_cons_self).2
+
+/-- a valid chain extended by a block that is valid on its replay -/
+private theorem chainValid_snoc_mk (e : Env) (l : List Nat) (bi : Nat) (r : St) (h : ChainValid e l r)
+    (hb : BlockValid e (replayChain e l r) (e.block bi)) : ChainValid e (l ++ [bi]) r := by
+  induction l generalizing r with
+  | nil => exact ⟨hb, trivial⟩
+  | cons b0 rest ih =>
+    obtain ⟨h1, h2⟩ := h
+    rw [replayChain_cons] at hb
+    exact ⟨h1, ih _ h2 hb⟩
+
 -- ================================================================== the closing induction over histories
 
-/-- the hypotheses on the environment (static: they do not mention the node). Block tree with parent links strictly
-down in height; every registered block is known under its id, its parent is registered, and all blocks descend from one
-root; every chain of the tree can be replayed on a fresh
-node from the base state `g`, with the side conditions of the block theorem (`ChainValid`: the harness feeds blocks that
-replicas accept; that `play` alone does not guarantee this is `accepted_block_replayable_refuted` below); no transaction
-occurs twice on a chain; the ids of block transactions are fresh in `g`; `g` is well-formed and its rows carry the frozen
-heights their transactions declare. -/
+/-- the hypotheses on the environment — all STATIC: they mention neither the node nor any replay. Block tree with parent
+links strictly down in height; every registered block is known under its id, its parent is registered, and all blocks
+descend from one root; the transactions of the registered blocks are well-formed (known under their ids, no self-citing
+input, one write per key) and cite the declared frozen heights; no transaction occurs twice on a chain; the ids of block
+transactions are fresh in `g`; `g` is well-formed and its rows carry the frozen heights their transactions declare.
+(Before the repair of `processUnconfirmTxs` this structure also ASSUMED "every chain of the tree can be replayed on a fresh
+node from `g`" — `chains : ∀ bi, ChainValid e (chain of bi) g` — because `play` alone did not guarantee it. Now the
+replayability of the node's chain is part of the invariant `Inv` and is PROVED for every block the node accepts through
+`play` (`accepted_block_replayable`) and for every block a walk applies (`todoBlock` admits every transaction in order);
+only for the node's own block it is still asked, in `OpOK`.) -/
 structure EnvOK (e : Env) (g : St) : Prop where
   lower : ParentLower e
   blockId : ∀ bi, bi ∈ e.blocks.map (·.1) → (e.block bi).id = bi
@@ -3317,18 +3374,21 @@ structure EnvOK (e : Env) (g : St) : Prop where
     (e.block bi).pre = none ∨ ∃ q ∈ e.blocks.map (·.1), (e.block bi).pre = some q
   oneRoot : ∀ b1 ∈ e.blocks.map (·.1), ∀ b2 ∈ e.blocks.map (·.1),
     (ancestors e (e.blocks.length + 1) b1).getLast? = (ancestors e (e.blocks.length + 1) b2).getLast?
-  chains : ∀ bi, bi ∈ e.blocks.map (·.1) → ChainValid e (ancestors e (e.blocks.length + 1) bi).reverse g
+  blockWF : ∀ bi, bi ∈ e.blocks.map (·.1) → ∀ i ∈ (e.block bi).txs, TxWF e i ∧ StaticFrozen e i
   chainNodup : ∀ bi, bi ∈ e.blocks.map (·.1) → (chainTxs e bi).Nodup
   blockFresh : ∀ bi, bi ∈ e.blocks.map (·.1) → ∀ i ∈ (e.block bi).txs, IdFresh g i
   kv : KVInv e g
   frozen : FrozenInv e g
 
-/-- **the invariant of the closing induction**: the node points at a registered block; its tables refine the canonical
-state of that block (the replay of its chain on a fresh node) with the pending pool applied in admission order; the
-pool satisfies the side conditions of the transaction theorems there, has no repetition, contains no transaction that
-is confirmed on the chain, and its transactions cite declared frozen heights and have ids fresh in `g` -/
+/-- **the invariant of the closing induction**: the node points at a registered block; the chain of that block can be
+replayed on a fresh node from `g` with the side conditions of the block theorem (`ChainValid`: every transaction of every
+block admitted in order); the node's tables refine the canonical state of the block (that replay) with the pending pool
+applied in admission order; the pool satisfies the side conditions of the transaction theorems there, has no repetition,
+contains no transaction that is confirmed on the chain, and its transactions cite declared frozen heights and have ids
+fresh in `g` -/
 structure Inv (e : Env) (g : St) (s : St) : Prop where
   known : s.pointer ∈ e.blocks.map (·.1)
+  chain : ChainValid e (ancestors e (e.blocks.length + 1) s.pointer).reverse g
   refines : TRefines s (applyPool e s.pool (canon e g s.pointer))
   pool : PoolValid e s.pool (canon e g s.pointer)
   nodup : s.pool.Nodup
@@ -3358,8 +3418,12 @@ def hrun (e : Env) (s : St) (ops : List HOp) : St := ops.foldl (hstep e) s
 /-- what is asked of one operation of a history, in the state it is applied to (everything else follows from `EnvOK`
 and the invariant). A submitted transaction that is ACCEPTED is well-formed, cites declared frozen heights and has a fresh
 id; if it has no token input it must not be confirmed on the node's chain already (a transaction with a token input that
-is confirmed cannot be accepted: its input is spent — `spent_on_chain`). Nothing is asked of a peer's block. The node's
-own block, if accepted: coinbase transactions new and without key writes, the others pending, a prefix of the pool. A
+is confirmed cannot be accepted: its input is spent — `spent_on_chain`). NOTHING is asked of a peer's block: that a
+fresh replica accepts what `play` accepts is proved (`accepted_block_replayable`). The node's own block, if accepted:
+coinbase transactions new and without key writes, the others pending, a prefix of the pool, and — the one replayability
+condition that is still asked — a fresh replica at the canonical state of the tip applies its transactions in block
+order at this ledger height (the miner packs the pool in an order of the pool's dependency graph; that such an order is
+replayable is the subject of C13, `pool_order_replayable` / `block_replayable`, in the pool model). A
 walk goes to a registered block, and its skip list names every pending transaction that is confirmed on the destination's
 chain — what the ledger supplies (`isConfirmedOnCurrentChain`); this replaces the former DYNAMIC condition "a pending
 transaction without token input that is confirmed on the destination's chain is not among the re-admitted ones", which
@@ -3373,7 +3437,8 @@ def OpOK (e : Env) (g : St) (s : St) : HOp → Prop
   | .playMiner lh bi => (playForMiner e s lh (e.block bi)).2 = .ok →
       (∀ i ∈ (e.block bi).txs, (e.tx i).coinbase = false → i ∈ s.pool) ∧
       (∀ i ∈ (e.block bi).txs, (e.tx i).coinbase = true → i ∉ s.pool ∧ (e.tx i).kout = []) ∧
-      (∀ a ∈ s.pool, a ∉ (e.block bi).txs → ∀ i ∈ (e.block bi).txs, i ∈ s.pool → [i, a].Sublist s.pool)
+      (∀ a ∈ s.pool, a ∉ (e.block bi).txs → ∀ i ∈ (e.block bi).txs, i ∈ s.pool → [i, a].Sublist s.pool) ∧
+      (applyBlockTxs e lh (e.block bi).prop [] (e.block bi).txs (canon e g s.pointer)).map (·.2) = some .ok
   | .walk _ dest _ skip => dest ∈ e.blocks.map (·.1) ∧ ∀ i ∈ s.pool, i ∈ chainTxs e dest → i ∈ skip
 
 /-- `OpOK` for every operation of the history, each in the state it is applied to -/
@@ -3384,10 +3449,10 @@ def HistOK (e : Env) (g : St) : St → List HOp → Prop
 /-- **an input of a transaction that is confirmed on the chain of `p` is a spent row, in the canonical state of `p` and
 with any pending transactions (fresh ids, not on the chain) applied on top** -/
 private theorem spent_on_chain (e : Env) (g : St) (p : Nat) (he : EnvOK e g) (hp : p ∈ e.blocks.map (·.1))
+    (hch : ChainValid e (ancestors e (e.blocks.length + 1) p).reverse g)
     (P : List Nat) (hP : ∀ j ∈ P, j ∉ chainTxs e p ∧ IdFresh g j ∧ (e.tx j).id = j)
     (i : Nat) (hi : i ∈ chainTxs e p) (r : InRef) (hr : r ∈ (e.tx i).ins) :
     lookup (applyPool e P (canon e g p)).U (r.tx, r.off) = none := by
-  have hch := he.chains p hp
   have hnd := he.chainNodup p hp
   have hwfc := chainValid_wf e _ g hch
   have hT := applyPool_tabEq e P _ _ (canon_tabEq e g p)
@@ -3484,6 +3549,7 @@ private theorem spent_on_chain (e : Env) (g : St) (p : Nat) (he : EnvOK e g) (hp
 
 /-- a transaction with a token input that is accepted by `doTx` is not confirmed on the chain of the tip -/
 private theorem not_confirmed_of_ok (e : Env) (g : St) (p : Nat) (he : EnvOK e g) (hp : p ∈ e.blocks.map (·.1))
+    (hch : ChainValid e (ancestors e (e.blocks.length + 1) p).reverse g)
     (st : St) (lh : Int) (i : Nat) (hst : TRefines st (applyPool e st.pool (canon e g p)))
     (hpool : ∀ j ∈ st.pool, j ∉ chainTxs e p ∧ IdFresh g j ∧ (e.tx j).id = j)
     (hok : (doTx e st lh i).2 = .ok) (hins : (e.tx i).ins ≠ []) : i ∉ chainTxs e p := by
@@ -3492,12 +3558,12 @@ private theorem not_confirmed_of_ok (e : Env) (g : St) (p : Nat) (he : EnvOK e g
   obtain ⟨hcur, _⟩ := XV.C03.admit_sound st lh _ hadm
   obtain ⟨r, hr⟩ := List.exists_mem_of_ne_nil _ hins
   obtain ⟨u, hu, _⟩ := hcur r hr
-  rw [hst.obs.U, spent_on_chain e g p he hp st.pool hpool i hi r hr] at hu
+  rw [hst.obs.U, spent_on_chain e g p he hp hch st.pool hpool i hi r hr] at hu
   cases hu
 
-private theorem Inv.freshU {e : Env} {g s : St} (he : EnvOK e g) (h : Inv e g s) :
+private theorem Inv.freshU {e : Env} {g s : St} (h : Inv e g s) :
     ∀ i ∈ s.pool, ∀ o, lookup (canon e g s.pointer).U (i, o) = none :=
-  fun i hi => (canon_fresh e g s.pointer i (he.chains _ h.known) (h.static i hi).2 (h.disjoint i hi)).1
+  fun i hi => (canon_fresh e g s.pointer i h.chain (h.static i hi).2 (h.disjoint i hi)).1
 
 private theorem Inv.poolFacts {e : Env} {g s : St} (h : Inv e g s) :
     ∀ j ∈ s.pool, j ∉ chainTxs e s.pointer ∧ IdFresh g j ∧ (e.tx j).id = j :=
@@ -3505,11 +3571,11 @@ private theorem Inv.poolFacts {e : Env} {g s : St} (h : Inv e g s) :
 
 private theorem inv_submit (e : Env) (g s : St) (lh : Int) (i : Nat) (he : EnvOK e g) (h : Inv e g s)
     (hop : OpOK e g s (.submit lh i)) : Inv e g (doTx e s lh i).1 := by
-  have hch := he.chains _ h.known
+  have hch := h.chain
   have hni : (doTx e s lh i).2 = .ok → i ∉ chainTxs e s.pointer := by
     intro hok
     rcases (hop hok).2.2.2 with hins | hn
-    · exact not_confirmed_of_ok e g s.pointer he h.known s lh i h.refines h.poolFacts hok hins
+    · exact not_confirmed_of_ok e g s.pointer he h.known hch s lh i h.refines h.poolFacts hok hins
     · exact hn
   obtain ⟨a1, a2, a3, a4, a5⟩ := doTx_refines e s lh i (canon e g s.pointer) h.refines h.pool h.nodup
     (canon_frozenInv e g _ hch he.frozen)
@@ -3526,7 +3592,7 @@ private theorem inv_submit (e : Env) (g s : St) (lh : Int) (i : Nat) (he : EnvOK
         · exact Or.inl h6
         · simp only [List.mem_cons, List.not_mem_nil, or_false] at h6; exact Or.inr ⟨h6, hok⟩
     · rw [XV.C05.doTx_fail_noop e s lh i hok] at hj; exact Or.inl hj
-  refine ⟨by rw [a4]; exact h.known, by rw [a4]; exact a1, by rw [a4]; exact a2, a3, ?_, ?_⟩
+  refine ⟨by rw [a4]; exact h.known, by rw [a4]; exact hch, by rw [a4]; exact a1, by rw [a4]; exact a2, a3, ?_, ?_⟩
   · intro j hj
     rw [a4]
     rcases hmem j hj with h1 | ⟨rfl, hok⟩
@@ -3537,24 +3603,52 @@ private theorem inv_submit (e : Env) (g s : St) (lh : Int) (i : Nat) (he : EnvOK
     · exact h.static j h1
     · exact ⟨(hop hok).2.1, (hop hok).2.2.1⟩
 
+/-- a block on top of `p` whose transactions a fresh node at the canonical state of `p` applies in order is `BlockValid`
+there: the other side conditions follow from the static ones of `EnvOK` -/
+private theorem blockValid_of_fwd (e : Env) (g : St) (he : EnvOK e g) (p bi : Nat)
+    (hpre : (e.block bi).pre = some p)
+    (hch : ChainValid e (ancestors e (e.blocks.length + 1) p).reverse g)
+    (hfwd : ∃ lh s2, applyBlockTxs e lh (e.block bi).prop [] (e.block bi).txs (canon e g p) = some (s2, .ok)) :
+    BlockValid e (canon e g p) (e.block bi) := by
+  have hk := block_known_of_pre e bi (by rw [hpre]; simp)
+  have hnd := he.chainNodup bi hk
+  rw [chainTxs_child e he.lower bi p hpre] at hnd
+  refine ⟨hfwd, fun i hi => (he.blockWF bi hk i hi).1, (List.nodup_append.mp hnd).2.1, ?_, ?_⟩
+  · intro i hi
+    exact (canon_fresh e g p i hch (he.blockFresh bi hk i hi)
+      (fun hm => (List.nodup_append.mp hnd).2.2 i hm i hi rfl)).1
+  · exact frozenAlong_of_static e _ _ _ (canon_frozenInv e g p hch he.frozen)
+      (fun i hi => ⟨(he.blockWF bi hk i hi).2, (he.blockWF bi hk i hi).1⟩)
+
+/-- the chain of a block on top of `p` that is valid on the canonical state of `p` is valid -/
+private theorem chainValid_child (e : Env) (g : St) (hpl : ParentLower e) (p bi : Nat)
+    (hpre : (e.block bi).pre = some p)
+    (hch : ChainValid e (ancestors e (e.blocks.length + 1) p).reverse g)
+    (hb : BlockValid e (canon e g p) (e.block bi)) :
+    ChainValid e (ancestors e (e.blocks.length + 1) bi).reverse g := by
+  rw [ancestors_child e hpl bi p hpre, List.reverse_cons]
+  exact chainValid_snoc_mk e _ bi g hch hb
+
 /-- what the invariant and `EnvOK` give for a block `bi` whose parent is the tip -/
 private theorem inv_block_facts (e : Env) (g s : St) (bi : Nat) (he : EnvOK e g) (h : Inv e g s)
     (hpre : (e.block bi).pre = some s.pointer) :
     bi ∈ e.blocks.map (·.1) ∧ e.block (e.block bi).id = e.block bi ∧
-    BlockValid e (canon e g s.pointer) (e.block bi) ∧
     chainTxs e bi = chainTxs e s.pointer ++ (e.block bi).txs ∧
+    (∀ i ∈ s.pool ++ (e.block bi).txs, ∀ o, lookup (canon e g s.pointer).U (i, o) = none) ∧
     (∀ i ∈ s.pool ++ (e.block bi).txs, ∀ k o, curVer (canon e g s.pointer) k ≠ some (i, o)) := by
   have hk := block_known_of_pre e bi (by rw [hpre]; simp)
   have hct := chainTxs_child e he.lower bi s.pointer hpre
   have hnd := he.chainNodup bi hk
   rw [hct] at hnd
-  refine ⟨hk, by rw [he.blockId bi hk], blockValid_of_chain e g he.lower bi s.pointer hpre (he.chains bi hk), hct, ?_⟩
-  intro i hi
-  have hch := he.chains _ h.known
-  rcases List.mem_append.mp hi with h1 | h1
-  · exact (canon_fresh e g s.pointer i hch (h.static i h1).2 (h.disjoint i h1)).2
-  · exact (canon_fresh e g s.pointer i hch (he.blockFresh bi hk i h1)
-      (fun hm => (List.nodup_append.mp hnd).2.2 i hm i h1 rfl)).2
+  have hch := h.chain
+  have hall : ∀ i ∈ s.pool ++ (e.block bi).txs,
+      (∀ o, lookup (canon e g s.pointer).U (i, o) = none) ∧ (∀ k o, curVer (canon e g s.pointer) k ≠ some (i, o)) := by
+    intro i hi
+    rcases List.mem_append.mp hi with h1 | h1
+    · exact canon_fresh e g s.pointer i hch (h.static i h1).2 (h.disjoint i h1)
+    · exact canon_fresh e g s.pointer i hch (he.blockFresh bi hk i h1)
+        (fun hm => (List.nodup_append.mp hnd).2.2 i hm i h1 rfl)
+  exact ⟨hk, by rw [he.blockId bi hk], hct, fun i hi => (hall i hi).1, fun i hi => (hall i hi).2⟩
 
 private theorem play_pre (e : Env) (s : St) (lh : Int) (b : Block) (hok : (play e s lh b).2 = .ok) :
     b.pre = some s.pointer := by
@@ -3567,10 +3661,24 @@ private theorem inv_play (e : Env) (g s : St) (lh : Int) (bi : Nat) (he : EnvOK 
     Inv e g (play e s lh (e.block bi)).1 := by
   by_cases hok : (play e s lh (e.block bi)).2 = .ok
   · have hpre := play_pre e s lh _ hok
-    obtain ⟨hk, hb, hblk, hct, hfv⟩ := inv_block_facts e g s bi he h hpre
-    have hch := he.chains _ h.known
+    obtain ⟨hk, hb, hct, hfu, hfv⟩ := inv_block_facts e g s bi he h hpre
+    have hch := h.chain
+    have hndB : (e.block bi).txs.Nodup := by
+      have hnd := he.chainNodup bi hk
+      rw [hct] at hnd
+      exact (List.nodup_append.mp hnd).2.1
+    -- the accepted block is replayable on the canonical state of the tip: no hypothesis needed (`accepted_block_replayable`)
+    have hblk : BlockValid e (canon e g s.pointer) (e.block bi) :=
+      blockValid_of_fwd e g he s.pointer bi hpre hch
+        (accepted_block_fwd e s lh (e.block bi) (canon e g s.pointer) (replayChain_KVInv e _ g hch he.kv) h.pool h.nodup
+          h.refines hfu hfv (canon_frozenInv e g _ hch he.frozen)
+          (fun i hi => by
+            rcases List.mem_append.mp hi with h1 | h1
+            · exact ⟨(h.static i h1).1, (txWF_iff e i).mpr (((poolValid_iff e _ _).mp h.pool).wf i h1)⟩
+            · exact ⟨(he.blockWF bi hk i h1).2, (he.blockWF bi hk i h1).1⟩)
+          hndB hok)
     obtain ⟨a1, a2, a3, a4⟩ := play_refines e s lh (e.block bi) g he.lower hb hok he.kv hch hblk h.pool h.nodup
-      h.refines (h.freshU he) hfv (canon_frozenInv e g _ hch he.frozen) (fun i hi => (h.static i hi).1)
+      h.refines h.freshU hfv (canon_frozenInv e g _ hch he.frozen) (fun i hi => (h.static i hi).1)
     have hid := he.blockId bi hk
     have hmem : ∀ j ∈ (play e s lh (e.block bi)).1.pool, j ∈ s.pool ∧ j ∉ (e.block bi).txs := by
       intro j hj
@@ -3578,7 +3686,9 @@ private theorem inv_play (e : Env) (g s : St) (lh : Int) (bi : Nat) (he : EnvOK 
       obtain ⟨h1, h2⟩ := List.mem_filter.mp hj
       simp only [Bool.and_eq_true, Bool.not_eq_true', List.contains_eq_mem, decide_eq_false_iff_not] at h2
       exact ⟨h1, h2.1⟩
-    refine ⟨by rw [a1, hid]; exact hk, by rw [a1]; exact a2, by rw [a1]; exact a3, ?_, ?_, ?_⟩
+    refine ⟨by rw [a1, hid]; exact hk,
+      by rw [a1, hid]; exact chainValid_child e g he.lower s.pointer bi hpre hch hblk,
+      by rw [a1]; exact a2, by rw [a1]; exact a3, ?_, ?_, ?_⟩
     · rw [a4]; exact List.Nodup.sublist List.filter_sublist h.nodup
     · intro j hj hm
       rw [a1, hid, hct] at hm
@@ -3592,11 +3702,13 @@ private theorem inv_playMiner (e : Env) (g s : St) (lh : Int) (bi : Nat) (he : E
     (hop : OpOK e g s (.playMiner lh bi)) : Inv e g (playForMiner e s lh (e.block bi)).1 := by
   by_cases hok : (playForMiner e s lh (e.block bi)).2 = .ok
   · have hpre := (playForMiner_ok_raw e s lh _ hok).1
-    obtain ⟨hk, hb, hblk, hct, hfv⟩ := inv_block_facts e g s bi he h hpre
-    have hch := he.chains _ h.known
-    obtain ⟨o1, o2, o3⟩ := hop hok
+    obtain ⟨hk, hb, hct, _, hfv⟩ := inv_block_facts e g s bi he h hpre
+    have hch := h.chain
+    obtain ⟨o1, o2, o3, o4⟩ := hop hok
+    have hblk : BlockValid e (canon e g s.pointer) (e.block bi) :=
+      blockValid_of_fwd e g he s.pointer bi hpre hch ⟨lh, fwd_of_res _ _ _ _ _ o4⟩
     obtain ⟨a1, a2, a3, a4⟩ := playForMiner_refines e s lh (e.block bi) g he.lower hb hok hblk h.pool h.nodup
-      h.refines (h.freshU he) hfv (canon_frozenInv e g _ hch he.frozen) (fun i hi => (h.static i hi).1) o1 o2 o3
+      h.refines h.freshU hfv (canon_frozenInv e g _ hch he.frozen) (fun i hi => (h.static i hi).1) o1 o2 o3
     have hid := he.blockId bi hk
     have hmem : ∀ j ∈ (playForMiner e s lh (e.block bi)).1.pool, j ∈ s.pool ∧ j ∉ (e.block bi).txs := by
       intro j hj
@@ -3604,7 +3716,9 @@ private theorem inv_playMiner (e : Env) (g s : St) (lh : Int) (bi : Nat) (he : E
       obtain ⟨h1, h2⟩ := List.mem_filter.mp hj
       simp only [Bool.not_eq_true', List.contains_eq_mem, decide_eq_false_iff_not] at h2
       exact ⟨h1, h2⟩
-    refine ⟨by rw [a1, hid]; exact hk, by rw [a1]; exact a2, by rw [a1]; exact a3, ?_, ?_, ?_⟩
+    refine ⟨by rw [a1, hid]; exact hk,
+      by rw [a1, hid]; exact chainValid_child e g he.lower s.pointer bi hpre hch hblk,
+      by rw [a1]; exact a2, by rw [a1]; exact a3, ?_, ?_, ?_⟩
     · rw [a4]; exact List.Nodup.sublist List.filter_sublist h.nodup
     · intro j hj hm
       rw [a1, hid, hct] at hm
@@ -3654,7 +3768,7 @@ private theorem foldl_doTx_pool_mono (e : Env) (lh : Int) (l : List Nat) (st : S
 /-- the re-admission loop of `walk` (`recoverUnconfirmedTx`) keeps "the state refines canon(dest) + pool", `PoolValid` and
 "no pending transaction is confirmed on the chain of `dest`" -/
 private theorem readmit_inv2 (e : Env) (g : St) (lh : Int) (dest : Nat) (he : EnvOK e g)
-    (hdest : dest ∈ e.blocks.map (·.1)) :
+    (hdest : dest ∈ e.blocks.map (·.1)) (hchd : ChainValid e (ancestors e (e.blocks.length + 1) dest).reverse g) :
     ∀ (l : List Nat) (st : St), TRefines st (applyPool e st.pool (canon e g dest)) →
       PoolValid e st.pool (canon e g dest) → st.pool.Nodup →
       (∀ j ∈ st.pool, j ∉ chainTxs e dest ∧ IdFresh g j) →
@@ -3666,7 +3780,6 @@ private theorem readmit_inv2 (e : Env) (g : St) (lh : Int) (dest : Nat) (he : En
       PoolValid e (l.foldl (fun st i => (doTx e st lh i).1) st).pool (canon e g dest) ∧
       (l.foldl (fun st i => (doTx e st lh i).1) st).pool.Nodup ∧
       (∀ j ∈ (l.foldl (fun st i => (doTx e st lh i).1) st).pool, j ∉ chainTxs e dest ∧ IdFresh g j) := by
-  have hchd := he.chains _ hdest
   intro l
   induction l with
   | nil => intro st h1 h2 h3 h4 _ _; exact ⟨h1, h2, h3, h4⟩
@@ -3677,7 +3790,7 @@ private theorem readmit_inv2 (e : Env) (g : St) (lh : Int) (dest : Nat) (he : En
     have hgood : (doTx e st lh i).2 = .ok → i ∉ chainTxs e dest := by
       intro hok
       rcases hcand i List.mem_cons_self with hins | hn | hn
-      · exact not_confirmed_of_ok e g dest he hdest st lh i h1
+      · exact not_confirmed_of_ok e g dest he hdest hchd st lh i h1
           (fun j hj => ⟨(hgd j hj).1, (hgd j hj).2, (hwfP j hj).id⟩) hok hins
       · exact hn
       · exfalso
@@ -3700,89 +3813,47 @@ private theorem readmit_inv2 (e : Env) (g : St) (lh : Int) (dest : Nat) (he : En
         rw [h6]
         exact ⟨hgood hok, (hst i List.mem_cons_self).2.2⟩
 
-/-- the re-admission of ANY list `L` taken from the old pool, on the block part of a successful walk, re-establishes the
-invariant at the destination -/
-private theorem inv_walkL (e : Env) (g s : St) (lh : Int) (dest : Nat) (prune : Bool) (he : EnvOK e g) (h : Inv e g s)
-    (L : List Nat) (hL : ∀ i ∈ L, i ∈ s.pool)
-    (hok : (XV.Crash.walkCore e s lh dest prune).2 = true) (hdest : dest ∈ e.blocks.map (·.1))
-    (hcand : ∀ i ∈ L, (e.tx i).ins ≠ [] ∨ i ∉ chainTxs e dest ∨
-      i ∉ (L.foldl (fun st i => (doTx e st lh i).1) (XV.Crash.walkCore e s lh dest prune).1).pool) :
-    Inv e g (L.foldl (fun st i => (doTx e st lh i).1) (XV.Crash.walkCore e s lh dest prune).1) := by
-  have hchain := he.chains _ h.known
-  have hpt0 := walkCore_reaches e s lh dest prune he.lower (he.blockId dest hdest) hok
-  have hpool := h.pool
-  have hs := h.refines
-  obtain ⟨pre, h1, h2, h3⟩ := canon_split e g s.pointer dest he.lower
-  rw [h1] at hchain
-  obtain ⟨c1, c2⟩ := chainValid_append e pre _ g hchain
-  rw [h2] at hpool hs
-  obtain ⟨t1, t2⟩ := walkCore_refines e s lh dest prune (replayChain e pre g) hok
-    (replayChain_KVInv e pre g c1 he.kv) c2 hpool hs
-  rw [← h3] at t1
-  generalize XV.Crash.walkCore e s lh dest prune = core at hpt0 t1 t2 hcand ⊢
-  obtain ⟨s2, okc⟩ := core
-  simp only at hpt0 t1 t2 hcand ⊢
-  have hpt : (L.foldl (fun st i => (doTx e st lh i).1) s2).pointer = dest := by
-    rw [foldl_doTx_pointer]; exact hpt0
-  have hwfP := ((poolValid_iff e _ _).mp h.pool).wf
-  have hsub := foldl_doTx_pool_sub e lh L s2
-  rw [t2] at hsub
-  have hmem : ∀ j ∈ (L.foldl (fun st i => (doTx e st lh i).1) s2).pool, j ∈ s.pool := by
-    intro j hj
-    rcases hsub j hj with h5 | h5
-    · cases h5
-    · exact hL j h5
-  obtain ⟨r1, r2, r3, r4⟩ := readmit_inv2 e g lh dest he hdest L s2
-    (by rw [t2]; exact t1) (by rw [t2]; trivial) (by rw [t2]; exact List.nodup_nil)
-    (fun j hj => by rw [t2] at hj; cases hj)
-    (fun i hi => ⟨(txWF_iff e i).mpr (hwfP i (hL i hi)), (h.static i (hL i hi)).1, (h.static i (hL i hi)).2⟩)
-    hcand
-  refine ⟨by rw [hpt]; exact hdest, by rw [hpt]; exact r1, by rw [hpt]; exact r2, r3, ?_, ?_⟩
-  · rw [hpt]; exact fun j hj => (r4 j hj).1
-  · exact fun j hj => h.static j (hmem j hj)
-
-private theorem inv_walk (e : Env) (g s : St) (lh : Int) (dest : Nat) (prune : Bool) (he : EnvOK e g) (h : Inv e g s)
-    (hop : (walk e s lh dest prune).2 = true ∧ dest ∈ e.blocks.map (·.1) ∧
-      ∀ i ∈ repostList e s, (e.tx i).ins ≠ [] ∨ i ∉ chainTxs e dest ∨ i ∉ (walk e s lh dest prune).1.pool) :
-    Inv e g (walk e s lh dest prune).1 := by
-  obtain ⟨hok, hdest, hcand⟩ := hop
-  have hokc : (XV.Crash.walkCore e s lh dest prune).2 = true := by rw [← XV.Crash.walk_ok_iff_core]; exact hok
-  rw [XV.Crash.walk_eq_core, if_pos hokc] at hcand ⊢
-  exact inv_walkL e g s lh dest prune he h (repostList e s) (repostList_subset e s) hokc hdest hcand
-
 -- ------------------------------------------------------------------ a walk that fails
 
-/-- the node is exactly at block `p`: empty pool, tables of the canonical state -/
+/-- the node is exactly at block `p`: empty pool, tables of the canonical state; the chain of `p` can be replayed -/
 private def At (e : Env) (g x : St) (p : Nat) : Prop :=
-  x.pointer = p ∧ p ∈ e.blocks.map (·.1) ∧ TRefines x (canon e g p) ∧ x.pool = []
+  x.pointer = p ∧ p ∈ e.blocks.map (·.1) ∧ TRefines x (canon e g p) ∧ x.pool = [] ∧
+  ChainValid e (ancestors e (e.blocks.length + 1) p).reverse g
 
 private theorem At.inv {e : Env} {g x : St} {p : Nat} (h : At e g x p) : Inv e g x := by
-  obtain ⟨h1, h2, h3, h4⟩ := h
-  refine ⟨by rw [h1]; exact h2, by rw [h4, h1]; exact h3, by rw [h4]; trivial, by rw [h4]; exact List.nodup_nil, ?_, ?_⟩
+  obtain ⟨h1, h2, h3, h4, h5⟩ := h
+  refine ⟨by rw [h1]; exact h2, by rw [h1]; exact h5, by rw [h4, h1]; exact h3, by rw [h4]; trivial,
+    by rw [h4]; exact List.nodup_nil, ?_, ?_⟩
   · intro i hi; rw [h4] at hi; cases hi
   · intro i hi; rw [h4] at hi; cases hi
 
 private theorem at_undoBlock (e : Env) (g x : St) (p q : Nat) (prune : Bool) (he : EnvOK e g) (h : At e g x p)
     (hpre : (e.block p).pre = some q) : At e g (undoBlock e x (e.block p) prune) q := by
-  obtain ⟨h1, h2, h3, h4⟩ := h
+  obtain ⟨h1, h2, h3, h4, h5⟩ := h
   have hq : q ∈ e.blocks.map (·.1) := by
     rcases he.parentKnown p h2 with hn | ⟨q', hq', hs⟩
     · rw [hn] at hpre; cases hpre
     · rw [hs] at hpre; injection hpre with hpre; rw [← hpre]; exact hq'
-  have hblk := blockValid_of_chain e g he.lower p q hpre (he.chains p h2)
-  have hKV := replayChain_KVInv e _ g (he.chains q hq) he.kv
+  have hblk := blockValid_of_chain e g he.lower p q hpre h5
+  have hchq : ChainValid e (ancestors e (e.blocks.length + 1) q).reverse g := by
+    rw [ancestors_child e he.lower p q hpre, List.reverse_cons] at h5
+    exact (chainValid_snoc e _ p g h5).1
+  have hKV := replayChain_KVInv e _ g hchq he.kv
   rw [canon_child e g he.lower p q hpre] at h3
-  refine ⟨by rw [undoBlock_eq]; simp [hpre], hq, undoBlock_replayBlock e _ (e.block p) prune hblk hKV x h3, ?_⟩
+  refine ⟨by rw [undoBlock_eq]; simp [hpre], hq, undoBlock_replayBlock e _ (e.block p) prune hblk hKV x h3, ?_, hchq⟩
   rw [undoBlock_eq]
   exact (undoTxs_frame e _ x).2.2.trans h4
 
 private theorem at_todoBlock (e : Env) (g x x' : St) (lh : Int) (p bi : Nat) (he : EnvOK e g) (h : At e g x p)
     (hpre : (e.block bi).pre = some p) (hx : todoBlock e x lh (e.block bi) = some x') : At e g x' bi := by
-  obtain ⟨_, _, h3, h4⟩ := h
+  obtain ⟨_, _, h3, h4, h5⟩ := h
   have hk := block_known_of_pre e bi (by rw [hpre]; simp)
-  obtain ⟨hx', _⟩ := todoBlock_eq e x x' lh _ hx
+  obtain ⟨hx', s2, hfwd⟩ := todoBlock_eq e x x' lh _ hx
+  -- the block was applied transaction by transaction on a state that shows the canonical tables: it is replayable
+  obtain ⟨r2, hr2⟩ := applyBlockTxs_trefines e lh _ _ x _ h3 s2 hfwd
+  have hblk := blockValid_of_fwd e g he p bi hpre h5 ⟨lh, r2, hr2⟩
   rw [hx']
-  refine ⟨he.blockId bi hk, hk, ?_, ?_⟩
+  refine ⟨he.blockId bi hk, hk, ?_, ?_, chainValid_child e g he.lower p bi hpre h5 hblk⟩
   · rw [canon_child e g he.lower bi p hpre]
     exact replayBlock_trefines e _ x _ h3
   · exact (replayTxs_frame e _ _ x).2.2.trans h4
@@ -3857,13 +3928,15 @@ private theorem todoAll_at (e : Env) (g : St) (lh : Int) (he : EnvOK e g) :
     | none => exact ⟨p, h⟩
     | some x' => exact ih x' bi (at_todoBlock e g x x' lh p bi he h hf.1 hx) hf.2
 
-/-- **a walk that FAILS keeps the invariant**: the node is left at the block it reached (an ancestor of the old tip if an
-undo was refused at the irreversible height, a block of the destination branch if a block was refused), with an empty
-pool and the tables of the canonical state of that block -/
-private theorem inv_walk_fail (e : Env) (g s : St) (lh : Int) (dest : Nat) (prune : Bool) (he : EnvOK e g)
-    (h : Inv e g s) (hdest : dest ∈ e.blocks.map (·.1)) (hfail : (XV.Crash.walkCore e s lh dest prune).2 = false) :
-    Inv e g (XV.Crash.walkCore e s lh dest prune).1 := by
-  have hchain := he.chains _ h.known
+/-- **where the block part of a walk leaves the node, in EVERY outcome**: exactly at some registered block — the destination
+if it succeeds, an ancestor of the old tip if an undo was refused at the irreversible height, a block of the destination
+branch if a block was refused — with an empty pool, the tables of the canonical state of that block, and a chain that can
+be replayed: the blocks it undid were valid (invariant), the blocks it applied were admitted transaction by transaction
+on a state showing the canonical tables (`at_todoBlock`) -/
+private theorem walkCore_at (e : Env) (g s : St) (lh : Int) (dest : Nat) (prune : Bool) (he : EnvOK e g)
+    (h : Inv e g s) (hdest : dest ∈ e.blocks.map (·.1)) :
+    ∃ p', At e g (XV.Crash.walkCore e s lh dest prune).1 p' := by
+  have hchain := h.chain
   have hR := replayChain_KVInv e _ g hchain he.kv
   have hroll := rollback_applyPool e s.pool _ h.pool hR s h.refines
   -- the two ancestor lists meet
@@ -3883,20 +3956,20 @@ private theorem inv_walk_fail (e : Env) (g s : St) (lh : Int) (dest : Nat) (prun
         exact hdisj x h1 (List.mem_of_getLast? hl)
     · exact ⟨lca, r1, r2, h1, h2⟩
   obtain ⟨lca, r1, r2, hca, hda⟩ := hcommon
-  unfold XV.Crash.walkCore XV.Crash.rolledBack at hfail ⊢
-  simp only at hfail ⊢
+  unfold XV.Crash.walkCore XV.Crash.rolledBack
+  simp only
   have h0 : At e g ({ (s.pool.reverse.foldl (fun st i => undoTx e st (e.tx i)) s) with pool := [] } : St) s.pointer :=
     ⟨foldl_undoTx_pointer e s.pool.reverse s, h.known,
-      hroll.of_tables ⟨rfl, rfl, rfl, rfl⟩ ⟨rfl, rfl, rfl, rfl⟩, rfl⟩
+      hroll.of_tables ⟨rfl, rfl, rfl, rfl⟩ ⟨rfl, rfl, rfl, rfl⟩, rfl, hchain⟩
   generalize hs0 : ({ (s.pool.reverse.foldl (fun st i => undoTx e st (e.tx i)) s) with pool := [] } : St) = s0
-    at h0 hfail ⊢
+    at h0 ⊢
   obtain ⟨p1, hu1, hu2⟩ := undoAll_at e g prune he (undoTodo e s.pointer dest).1 s0 s.pointer (lca :: r1) h0 hca
     (by simp)
-  generalize hua : walk.undoAll e prune (undoTodo e s.pointer dest).1 s0 = ua at hu1 hu2 hfail ⊢
+  generalize hua : walk.undoAll e prune (undoTodo e s.pointer dest).1 s0 = ua at hu1 hu2 ⊢
   obtain ⟨s1, ok1⟩ := ua
   simp only at hu1 hu2
   by_cases hok1 : ok1 = true
-  · simp only [hok1, Bool.not_true, Bool.false_eq_true, ↓reduceIte] at hfail ⊢
+  · simp only [hok1, Bool.not_true, Bool.false_eq_true, ↓reduceIte]
     have hp1 : p1 = lca := by
       have := hu2 hok1
       obtain ⟨r, hr⟩ := ancestors_head e e.blocks.length p1
@@ -3908,10 +3981,62 @@ private theorem inv_walk_fail (e : Env) (g s : St) (lh : Int) (dest : Nat) (prun
       apply fwdLinked_of_linked e _ lca r2
       rw [← hda]
       exact ancestors_linked e _ dest
-    obtain ⟨p2, ht⟩ := todoAll_at e g lh he (undoTodo e s.pointer dest).2 s1 lca hu1 hfl
-    exact ht.inv
+    exact todoAll_at e g lh he (undoTodo e s.pointer dest).2 s1 lca hu1 hfl
   · simp only [hok1, Bool.not_false, ↓reduceIte]
-    exact hu1.inv
+    exact ⟨p1, hu1⟩
+
+/-- **a walk that FAILS keeps the invariant**: the node is left at the block it reached (an ancestor of the old tip if an
+undo was refused at the irreversible height, a block of the destination branch if a block was refused), with an empty
+pool and the tables of the canonical state of that block -/
+private theorem inv_walk_fail (e : Env) (g s : St) (lh : Int) (dest : Nat) (prune : Bool) (he : EnvOK e g)
+    (h : Inv e g s) (hdest : dest ∈ e.blocks.map (·.1)) :
+    Inv e g (XV.Crash.walkCore e s lh dest prune).1 := by
+  obtain ⟨p', hat⟩ := walkCore_at e g s lh dest prune he h hdest
+  exact hat.inv
+
+/-- the re-admission of ANY list `L` taken from the old pool, on the block part of a successful walk, re-establishes the
+invariant at the destination -/
+private theorem inv_walkL (e : Env) (g s : St) (lh : Int) (dest : Nat) (prune : Bool) (he : EnvOK e g) (h : Inv e g s)
+    (L : List Nat) (hL : ∀ i ∈ L, i ∈ s.pool)
+    (hok : (XV.Crash.walkCore e s lh dest prune).2 = true) (hdest : dest ∈ e.blocks.map (·.1))
+    (hcand : ∀ i ∈ L, (e.tx i).ins ≠ [] ∨ i ∉ chainTxs e dest ∨
+      i ∉ (L.foldl (fun st i => (doTx e st lh i).1) (XV.Crash.walkCore e s lh dest prune).1).pool) :
+    Inv e g (L.foldl (fun st i => (doTx e st lh i).1) (XV.Crash.walkCore e s lh dest prune).1) := by
+  have hpt0 := walkCore_reaches e s lh dest prune he.lower (he.blockId dest hdest) hok
+  obtain ⟨p', hat⟩ := walkCore_at e g s lh dest prune he h hdest
+  generalize XV.Crash.walkCore e s lh dest prune = core at hpt0 hat hcand ⊢
+  obtain ⟨s2, okc⟩ := core
+  simp only at hpt0 hat hcand ⊢
+  obtain ⟨a1, _, t1, t2, hchd⟩ := hat
+  have hp' : p' = dest := by rw [← a1]; exact hpt0
+  rw [hp'] at t1 hchd
+  have hpt : (L.foldl (fun st i => (doTx e st lh i).1) s2).pointer = dest := by
+    rw [foldl_doTx_pointer]; exact hpt0
+  have hwfP := ((poolValid_iff e _ _).mp h.pool).wf
+  have hsub := foldl_doTx_pool_sub e lh L s2
+  rw [t2] at hsub
+  have hmem : ∀ j ∈ (L.foldl (fun st i => (doTx e st lh i).1) s2).pool, j ∈ s.pool := by
+    intro j hj
+    rcases hsub j hj with h5 | h5
+    · cases h5
+    · exact hL j h5
+  obtain ⟨r1, r2, r3, r4⟩ := readmit_inv2 e g lh dest he hdest hchd L s2
+    (by rw [t2]; exact t1) (by rw [t2]; trivial) (by rw [t2]; exact List.nodup_nil)
+    (fun j hj => by rw [t2] at hj; cases hj)
+    (fun i hi => ⟨(txWF_iff e i).mpr (hwfP i (hL i hi)), (h.static i (hL i hi)).1, (h.static i (hL i hi)).2⟩)
+    hcand
+  refine ⟨by rw [hpt]; exact hdest, by rw [hpt]; exact hchd, by rw [hpt]; exact r1, by rw [hpt]; exact r2, r3, ?_, ?_⟩
+  · rw [hpt]; exact fun j hj => (r4 j hj).1
+  · exact fun j hj => h.static j (hmem j hj)
+
+private theorem inv_walk (e : Env) (g s : St) (lh : Int) (dest : Nat) (prune : Bool) (he : EnvOK e g) (h : Inv e g s)
+    (hop : (walk e s lh dest prune).2 = true ∧ dest ∈ e.blocks.map (·.1) ∧
+      ∀ i ∈ repostList e s, (e.tx i).ins ≠ [] ∨ i ∉ chainTxs e dest ∨ i ∉ (walk e s lh dest prune).1.pool) :
+    Inv e g (walk e s lh dest prune).1 := by
+  obtain ⟨hok, hdest, hcand⟩ := hop
+  have hokc : (XV.Crash.walkCore e s lh dest prune).2 = true := by rw [← XV.Crash.walk_ok_iff_core]; exact hok
+  rw [XV.Crash.walk_eq_core, if_pos hokc] at hcand ⊢
+  exact inv_walkL e g s lh dest prune he h (repostList e s) (repostList_subset e s) hokc hdest hcand
 
 /-- one operation keeps the invariant -/
 theorem step_invariant (e : Env) (g s : St) (op : HOp) (he : EnvOK e g) (h : Inv e g s) (hop : OpOK e g s op) :
@@ -3933,15 +4058,21 @@ theorem step_invariant (e : Env) (g s : St) (op : HOp) (he : EnvOK e g) (h : Inv
       have : i ∈ skip := hskip i hp hc
       simp [this] at hn
     · rw [if_neg hok]
-      exact inv_walk_fail e g s lh dest prune he h hdest (by simpa using hok)
+      exact inv_walk_fail e g s lh dest prune he h hdest
 
 /-- **the closing induction: after ANY history the node is on "canonical state of its tip + pool".** Environment as in
-`EnvOK`; start state with the invariant (`genesis_inv`: the canonical state of a registered block with an empty pool —
-in particular the genesis state); a history of submissions, peers' blocks, own blocks and walks across forks, in any
-order and of any length, each operation as in `OpOK`. Then the final state points at a registered block `B` and its
-observable tables — every UTXO row, the version of every key, the total supply — are those of the replay of the chain
-genesis..`B` on a fresh node followed by the pending pool applied in admission order (`TRefines`: plus the live key table
-row by row and no recycle row that the replay does not have); and the pool is again valid there. -/
+`EnvOK` (static conditions only); start state with the invariant (`genesis_inv`: the canonical state of a registered block
+whose chain replays from `g`, with an empty pool — in particular the genesis state); a history of submissions, peers'
+blocks, own blocks and walks across forks (each walk with the skip list the ledger supplies for it), in any order and of
+any length, each operation as in `OpOK`. Then the final state points at a registered block `B`, the chain genesis..`B` CAN
+be replayed on a fresh node (`Inv.chain`), and the node's observable tables — every UTXO row, the version of every key,
+the total supply — are those of that replay followed by the pending pool applied in admission order (`TRefines`: plus the
+live key table row by row and no recycle row that the replay does not have); and the pool is again valid there.
+After the two repairs nothing is ASSUMED about the replayability of the blocks the node receives: a block accepted by
+`play` is replayable (`accepted_block_replayable`), a block applied by a walk was admitted transaction by transaction;
+and nothing dynamic is assumed about the transactions a walk re-admits (the skip list, `SkipsConfirmed`). What is still
+asked, per operation: a submitted transaction without token input is not confirmed on the node's chain already; the
+node's OWN block is applied in order by a replica at the canonical state of the tip. -/
 theorem chain_refines (e : Env) (g s0 : St) (ops : List HOp) (he : EnvOK e g) (h0 : Inv e g s0)
     (hh : HistOK e g s0 ops) : Inv e g (hrun e s0 ops) := by
   induction ops generalizing s0 with
@@ -3950,10 +4081,12 @@ theorem chain_refines (e : Env) (g s0 : St) (ops : List HOp) (he : EnvOK e g) (h
     obtain ⟨h1, h2⟩ := hh
     exact ih (hstep e s0 op) (step_invariant e g s0 op he h0 h1) h2
 
-/-- the canonical state of a registered block, with an empty pool, satisfies the invariant -/
-theorem genesis_inv (e : Env) (g : St) (p : Nat) (hp : p ∈ e.blocks.map (·.1)) :
+/-- the canonical state of a registered block whose chain can be replayed from `g` (for the genesis block: the one block
+`g` itself has to accept), with an empty pool, satisfies the invariant -/
+theorem genesis_inv (e : Env) (g : St) (p : Nat) (hp : p ∈ e.blocks.map (·.1))
+    (hch : ChainValid e (ancestors e (e.blocks.length + 1) p).reverse g) :
     Inv e g { canon e g p with pool := [], pointer := p } :=
-  ⟨hp, (TRefines.refl _).of_tables ⟨rfl, rfl, rfl, rfl⟩ ⟨rfl, rfl, rfl, rfl⟩, trivial, List.nodup_nil,
+  ⟨hp, hch, (TRefines.refl _).of_tables ⟨rfl, rfl, rfl, rfl⟩ ⟨rfl, rfl, rfl, rfl⟩, trivial, List.nodup_nil,
     (fun _ hi => by cases hi), (fun _ hi => by cases hi)⟩
 
 /-- the observable reading of the invariant: same UTXO rows, same version of every key, same total as the replay of
@@ -4021,27 +4154,27 @@ private def hsOps : List HOp := [
   .play 0 2, .play 0 3, .submit 0 27, .walk 0 3 false [22], .walk 0 2, .submit 0 24, .playMiner 0 4,
   .walk (-1) 3, .walk 0 4]
 
-private theorem hsEnvOK : EnvOK hsEnv prG := by
-  refine ⟨parentLower_of_blocks _ (by decide), by decide, by decide, by decide, ?_, by decide, by decide,
+private theorem hsEnvOK : EnvOK hsEnv prG :=
+  ⟨parentLower_of_blocks _ (by decide), by decide, by decide, by decide, by decide, by decide, by decide,
     KVInv_empty _ _ rfl rfl, frozenInv_of_rows _ _ (by decide)⟩
-  intro bi hbi
-  apply chainValid_of_check _ 0
-  revert bi hbi
-  decide
+
+-- the start state: the canonical state of block 1, whose chain (block 1 alone) replays from `prG`
+private theorem hsInv0 : Inv hsEnv prG hsS0 :=
+  genesis_inv hsEnv prG 1 (by decide) (chainValid_of_check _ 0 _ _ (by decide))
 
 example : EnvOK hsEnv prG := hsEnvOK
-example : Inv hsEnv prG hsS0 := genesis_inv hsEnv prG 1 (by decide)
+example : Inv hsEnv prG hsS0 := hsInv0
 example : HistOK hsEnv prG hsS0 hsOps := by decide
 -- every submitted / pending transaction of this history has a token input: nothing dynamic is assumed of it
 example : ∀ i ∈ [21, 22, 23, 24, 26, 27], (hsEnv.tx i).ins ≠ [] := by decide
 -- the theorems applied
 example : Inv hsEnv prG (hrun hsEnv hsS0 hsOps) :=
-  chain_refines hsEnv prG hsS0 hsOps hsEnvOK (genesis_inv hsEnv prG 1 (by decide)) (by decide)
+  chain_refines hsEnv prG hsS0 hsOps hsEnvOK hsInv0 (by decide)
 example : ObsT (hrun hsEnv hsS0 hsOps)
     (applyPool hsEnv (hrun hsEnv hsS0 hsOps).pool (canon hsEnv prG (hrun hsEnv hsS0 hsOps).pointer)) :=
-  (chain_observables hsEnv prG hsS0 hsOps hsEnvOK (genesis_inv hsEnv prG 1 (by decide)) (by decide)).2
+  (chain_observables hsEnv prG hsS0 hsOps hsEnvOK hsInv0 (by decide)).2
 example : Inv hsEnv prG (hstep hsEnv hsS0 (.submit 0 21)) :=
-  step_invariant hsEnv prG hsS0 _ hsEnvOK (genesis_inv hsEnv prG 1 (by decide)) (by decide)
+  step_invariant hsEnv prG hsS0 _ hsEnvOK hsInv0 (by decide)
 -- the conclusion, computed: the node is at block 4 with an empty pool and shows the tables of the chain 1 2 4
 example :
     let s := hrun hsEnv hsS0 hsOps
@@ -4068,19 +4201,16 @@ private def rdEnv : Env := {
 private def rdS0 : St := { canon rdEnv {} 1 with pool := [], pointer := 1 }
 private def rdOps (skip : List Nat) : List HOp := [.play 0 2, .submit 0 50, .walk 0 3 false skip]
 
-private theorem rdEnvOK : EnvOK rdEnv {} := by
-  refine ⟨parentLower_of_blocks _ (by decide), by decide, by decide, by decide, ?_, by decide, by decide,
+private theorem rdEnvOK : EnvOK rdEnv {} :=
+  ⟨parentLower_of_blocks _ (by decide), by decide, by decide, by decide, by decide, by decide, by decide,
     KVInv_empty _ _ rfl rfl, frozenInv_of_rows _ _ (by decide)⟩
-  intro bi hbi
-  apply chainValid_of_check _ 0
-  revert bi hbi
-  decide
 
 example : HistOK rdEnv {} rdS0 (rdOps [50]) ∧ (hrun rdEnv rdS0 ((rdOps [50]).take 2)).pool = [50] ∧
     (rdEnv.tx 50).ins = [] ∧ 50 ∈ chainTxs rdEnv 3 ∧
     (hrun rdEnv rdS0 (rdOps [50])).pointer = 3 ∧ (hrun rdEnv rdS0 (rdOps [50])).pool = [] := by decide
 example : Inv rdEnv {} (hrun rdEnv rdS0 (rdOps [50])) :=
-  chain_refines rdEnv {} rdS0 (rdOps [50]) rdEnvOK (genesis_inv rdEnv {} 1 (by decide)) (by decide)
+  chain_refines rdEnv {} rdS0 (rdOps [50]) rdEnvOK
+    (genesis_inv rdEnv {} 1 (by decide) (chainValid_of_check _ 0 _ _ (by decide))) (by decide)
 -- nothing skipped: the hypothesis on the walk fails, and the conclusion with it
 example : ¬ HistOK rdEnv {} rdS0 (rdOps []) ∧ (hrun rdEnv rdS0 (rdOps [])).pointer = 3 ∧
     (hrun rdEnv rdS0 (rdOps [])).pool = [50] := by decide
@@ -4162,6 +4292,7 @@ example :
     (walk hsEnv (walk hsEnv s 0 3 false).1 0 s.pointer false).2 = true ∧
     (∀ k ∈ s.U.map (·.1) ++ (walk hsEnv (walk hsEnv s 0 3 false).1 0 2 false).1.U.map (·.1),
       lookup (walk hsEnv (walk hsEnv s 0 3 false).1 0 2 false).1.U k = lookup s.U k) := by decide
-example : Inv hsEnv prG { canon hsEnv prG 2 with pool := [], pointer := 2 } := genesis_inv hsEnv prG 2 (by decide)
+example : Inv hsEnv prG { canon hsEnv prG 2 with pool := [], pointer := 2 } :=
+  genesis_inv hsEnv prG 2 (by decide) (chainValid_of_check _ 0 _ _ (by decide))
 
 end XV.C01
